@@ -9,6 +9,7 @@ Oracle (the property, independent of the model): a `str` argument makes a regist
 """
 from __future__ import annotations
 
+import re
 import urllib.parse
 
 import c16_http
@@ -33,6 +34,7 @@ EXTRA = ["9" * 5000, "99999999999999999999-01-01T00:00:00Z", "2024-01-01T00:00:0
 
 # texts from_isodatetime hands to strptime (no `T`, no leading `P`) – the model answers `other`
 TAGS = sorted(NONSTR)
+LONG_DIGITS = re.compile(r"[0-9_]{4000}")
 
 
 def kind_code(kind: str) -> str:
@@ -90,7 +92,7 @@ def text_pool(rng, n_random: int) -> list:
 def gen_calc_query(rng, names, pool, kinds) -> list:
     """queries whose date-time values keep to the modelled part of from_isodatetime"""
     q = c16_http.gen_query(rng, names, pool, kinds=kinds)
-    return [[k, v] for k, v in q if is_ascii(k) and is_ascii(v)]
+    return [[k, v] for k, v in q if is_ascii(k) and is_ascii(v) and not LONG_DIGITS.search(v)]
 
 
 def query_string(q: list) -> str:
